@@ -50,6 +50,42 @@ def distributor_channels():
     return {"distributor_channels.rs": src}
 
 
+def memory_pool():
+    base = f"{REPO}/datafusion/execution/src/memory_pool"
+    out = {}
+    # mod.rs ---------------------------------------------------------------
+    src = strip_test_modules(open(f"{base}/mod.rs").read())
+    src = sub(src, "use std::{cmp::Ordering, sync::Arc, sync::atomic};\n",
+              "use std::{cmp::Ordering, sync::Arc};\nuse loom::sync::atomic; // loom atomics for MemoryReservation::size\n",
+              1, "memory_pool/mod.rs std import")
+    # the process-wide id counter must be a `static`: loom atomics are not const; ids are not part of the property
+    src = sub(src, "        static ID: atomic::AtomicUsize = atomic::AtomicUsize::new(0);\n",
+              "        static ID: std::sync::atomic::AtomicUsize = std::sync::atomic::AtomicUsize::new(0);\n",
+              1, "memory_pool/mod.rs static ID")
+    if "std::sync::atomic" in src.replace("static ID: std::sync::atomic::AtomicUsize = std::sync::atomic::AtomicUsize::new(0);", ""):
+        raise Fail("memory_pool/mod.rs: an un-rewritten std atomic path survives")
+    out["memory_pool/mod.rs"] = src
+    # pool.rs --------------------------------------------------------------
+    src = strip_test_modules(open(f"{base}/pool.rs").read())
+    src = sub(src, "use std::{\n    num::NonZeroUsize,\n    sync::atomic::{AtomicUsize, Ordering},\n};\n",
+              "use std::num::NonZeroUsize;\nuse loom::sync::atomic::{AtomicUsize, Ordering};\n",
+              1, "memory_pool/pool.rs std import")
+    src = sub(src, "use parking_lot::Mutex;\n", "use parking_lot::Mutex; // = loomx shim over loom::sync::Mutex\n", 1,
+              "memory_pool/pool.rs parking_lot import")
+    if "std::sync::atomic" in src or "sync::atomic" in src.replace("loom::sync::atomic", ""):
+        raise Fail("memory_pool/pool.rs: an un-rewritten atomic path survives")
+    out["memory_pool/pool.rs"] = src
+    # peak_recording.rs ----------------------------------------------------
+    src = strip_test_modules(open(f"{base}/peak_recording.rs").read())
+    src = sub(src, "    sync::{\n        Arc,\n        atomic::{AtomicUsize, Ordering},\n    },\n};\n",
+              "    sync::Arc,\n};\nuse loom::sync::atomic::{AtomicUsize, Ordering};\n",
+              1, "memory_pool/peak_recording.rs std import")
+    if "sync::atomic" in src.replace("loom::sync::atomic", ""):
+        raise Fail("memory_pool/peak_recording.rs: an un-rewritten atomic path survives")
+    out["memory_pool/peak_recording.rs"] = src
+    return out
+
+
 def main():
     os.makedirs(GEN, exist_ok=True)
     files = {}
@@ -68,7 +104,7 @@ def main():
     print(f"sync_sources: {len(files)} file(s) in {GEN}")
 
 
-GENERATORS = [distributor_channels]
+GENERATORS = [distributor_channels, memory_pool]
 
 if __name__ == "__main__":
     main()
